@@ -171,13 +171,15 @@ def is_len_atom(a: str) -> bool:
 class Facts:
     """Immutable set of linear facts plus opaque predicates."""
 
-    __slots__ = ("ge", "eq", "preds", "_h")
+    __slots__ = ("ge", "eq", "preds", "_h", "_sv", "_memo")
 
     def __init__(self, ge: Iterable[Lin] = (), eq: Iterable[Lin] = (), preds: Iterable[tuple] = ()) -> None:
         self.ge: FrozenSet[Lin] = frozenset(ge)
         self.eq: FrozenSet[Lin] = frozenset(eq)
         self.preds: FrozenSet[tuple] = frozenset(preds)
         self._h = hash((self.ge, self.eq, self.preds))
+        self._sv = None
+        self._memo = {}
 
     def __hash__(self) -> int:
         return self._h
@@ -288,6 +290,8 @@ class Facts:
     # ---- entailment
     def _solved(self) -> Tuple[Dict[str, Lin], List[Lin]]:
         """Gaussian elimination of equalities with unit pivots. Returns (definitions, residual eqs)."""
+        if self._sv is not None:
+            return self._sv
         defs: Dict[str, Lin] = {}
         residual: List[Lin] = []
         for E in sorted(self.eq, key=repr):
@@ -310,6 +314,7 @@ class Facts:
             for b in list(defs):
                 defs[b] = defs[b].subst(a, repl)
             defs[a] = repl
+        self._sv = (defs, residual)
         return defs, residual
 
     def reduce(self, L: Lin) -> Lin:
@@ -322,6 +327,14 @@ class Facts:
         """facts |- L >= 0 ?"""
         if L.is_const():
             return L.c >= 0
+        m = self._memo.get(L)
+        if m is not None:
+            return m
+        r0 = self._entails_ge(L, depth)
+        self._memo[L] = r0
+        return r0
+
+    def _entails_ge(self, L: Lin, depth: int) -> bool:
         defs, residual = self._solved()
         for a, r in defs.items():
             L = L.subst(a, r)
@@ -434,7 +447,32 @@ def join_facts(a: Optional[Facts], b: Optional[Facts]) -> Optional[Facts]:
     for G in b.ge:
         if G not in ge and a.entails_ge(G):
             ge.add(G)
-    return Facts(ge, eq, a.preds & b.preds)
+    # relational closure: atoms that are constant in both states with the same difference
+    ca = _const_atoms(a)
+    cb = _const_atoms(b)
+    common = sorted(set(ca) & set(cb))
+    if 2 <= len(common) <= 14:
+        for i, x in enumerate(common):
+            for y in common[i + 1:]:
+                if ca[x] != cb[x] and ca[x] - ca[y] == cb[x] - cb[y]:
+                    eq.add((Lin.atom(x) - Lin.atom(y)).shift(-(ca[x] - ca[y])).eq_norm())
+    return Facts(ge, eq, _join_preds(a.preds, b.preds))
+
+
+def _const_atoms(f: Facts) -> Dict[str, int]:
+    defs, _ = f._solved()
+    return {a: r.c for a, r in defs.items() if r.is_const()}
+
+
+def _join_preds(pa, pb):
+    out = set(pa & pb)
+    # float bounds: ('flo', atom, c) means atom >= c ; ('fhi', atom, c) means atom <= c
+    for kind, pick in (("flo", min), ("fhi", max)):
+        da = {p[1]: p[2] for p in pa if p[0] == kind}
+        db = {p[1]: p[2] for p in pb if p[0] == kind}
+        for k in da.keys() & db.keys():
+            out.add((kind, k, pick(da[k], db[k])))
+    return frozenset(out)
 
 
 def widen_facts(old: Optional[Facts], new: Optional[Facts]) -> Optional[Facts]:
@@ -451,7 +489,7 @@ def widen_facts(old: Optional[Facts], new: Optional[Facts]) -> Optional[Facts]:
                 ge.add(E.tighten())
             if new.entails_ge(-E):
                 ge.add((-E).tighten())
-    return Facts(ge, eq, old.preds & new.preds)
+    return Facts(ge, eq, _join_preds(old.preds, new.preds))
 
 
 def facts_equal(a: Optional[Facts], b: Optional[Facts]) -> bool:
